@@ -45,7 +45,7 @@ inductive MuSE where
 structure Step (σ : Type) where
   st : σ
   ok : Bool
-  deriving Repr
+  deriving Repr, DecidableEq
 
 /-- the mass-relevant fields of FuelConverter / Generator / ReversibleEnergyStorage:
     `mass`, `specific_pwr` (`specific_energy`), `pwr_out_max` (`energy_capacity`) -/
@@ -53,7 +53,7 @@ structure Comp (α : Type) where
   mass : Option α
   specific : Option α
   rating : α
-  deriving Repr
+  deriving Repr, DecidableEq
 
 /-- `Option::or` -/
 def optOr {β : Type} : Option β → Option β → Option β
@@ -110,7 +110,7 @@ inductive PT (α : Type) where
   | hybrid (fc gen res : Comp α)
   | bel (res : Comp α)
   | dummy
-  deriving Repr
+  deriving Repr, DecidableEq
 
 structure Loco (α : Type) where
   pt : PT α
@@ -119,7 +119,7 @@ structure Loco (α : Type) where
   ballast : Option α
   baseline : Option α
   forceMax : α
-  deriving Repr
+  deriving Repr, DecidableEq
 
 def PT.isDummy : PT α → Bool
   | .dummy => true
@@ -364,7 +364,7 @@ structure RV (α : Type) where
   key : Nat
   base : α
   freight : α
-  deriving Repr
+  deriving Repr, DecidableEq
 
 /-- `HashMap::get` on `n_cars_by_type` (keys are unique in the map) -/
 def nCars (n : List (Nat × Nat)) (key : Nat) : Option Nat := n.lookup key
